@@ -633,6 +633,7 @@ class ASL_API Var
 		char _ss[VAR_SSPACE];
 	};
 	void free();
+	bool holdsNested() const;
 	bool ownsNested() const;
 	void detachNested(Array<Var>& pending);
 	friend class XdlEncoder;
